@@ -132,9 +132,21 @@ func c11run(idx int) run.Result {
 		} else if o > 0 {
 			inside = true
 		}
-		for _, ending := range []sconn.Ending{sconn.EOF, sconn.Reset} {
+		for mode := 0; mode < 3; mode++ {
+			// mode 2 = full close: the client has closed both directions, so besides the reads ending the reply
+			// writes fail from the k-th on (the first reply after a close may still be accepted by the kernel)
+			ending := []sconn.Ending{sconn.EOF, sconn.Reset, sconn.EOF}[mode]
+			script := sconn.Script{End: ending}
+			endName := ending.String()
+			if mode == 2 {
+				if q < 2 {
+					continue
+				}
+				script.FailWriteAt, script.FailWriteKeep = 1+o%2, o%4
+				endName = "FULL-CLOSE"
+			}
 			for _, how := range []string{chWhole, chByte} {
-				if how == chByte && o > 300 && o%7 != 0 {
+				if how == chByte && (mode == 2 || o > 300 && o%7 != 0) {
 					continue
 				}
 				var chunks [][]byte
@@ -145,16 +157,16 @@ func c11run(idx int) run.Result {
 				}
 				rec2 := double.NewRec()
 				srv := newServer(rec2)
-				pr := runPipe(srv, reqs, chunks, sconn.Script{End: ending})
+				pr := runPipe(srv, reqs, chunks, script)
 				res.Count("cut_runs", 1)
 				cutClass := "at-request-boundary"
 				if inside {
 					cutClass = "inside:" + splitName(string(cls[o]))
-					res.Keys = append(res.Keys, res.Key^uint64(o)<<20^uint64(ending)<<1^uint64(len(how)))
+					res.Keys = append(res.Keys, res.Key^uint64(o)<<20^uint64(mode)<<1^uint64(len(how)))
 				}
 				res.Count("cut:"+cutClass, 1)
-				extra := map[string]any{"cut_offset": o, "ending": ending.String(), "delivery": how, "complete_requests": q, "cut_class": cutClass}
-				sig := fmt.Sprintf("C11:%%s:%s:%s", ending, cutClass)
+				extra := map[string]any{"cut_offset": o, "ending": endName, "fail_write_at": script.FailWriteAt, "delivery": how, "complete_requests": q, "cut_class": cutClass}
+				sig := fmt.Sprintf("C11:%%s:%s:%s", endName, cutClass)
 				if pr.TimedOut {
 					res.Inconclusive = "watchdog: the connection loop did not return after the stream ended"
 					continue
@@ -211,7 +223,14 @@ func c11run(idx int) run.Result {
 				if q > 0 {
 					wantOut = ref.Snap.Out[:ref.FrameEnds[q-1]]
 				}
-				if !bytes.Equal(pr.Snap.Out, wantOut) {
+				if mode == 2 {
+					res.Count("full_close_runs", 1)
+					if !bytes.HasPrefix(wantOut, pr.Snap.Out) {
+						extra["out_hex"] = hexClip(pr.Snap.Out, 300)
+						res.Violate(fmt.Sprintf(sig, "replies"), "exactly the fully received requests are answered, once each", "what was written before the writes failed is not a prefix of those requests' replies", desc(extra))
+						return res
+					}
+				} else if !bytes.Equal(pr.Snap.Out, wantOut) {
 					// a parser error may legitimately add nothing; anything else is wrong
 					extra["out_hex"] = hexClip(pr.Snap.Out, 300)
 					extra["want_hex"] = hexClip(wantOut, 300)
@@ -239,7 +258,7 @@ func init() {
 	run.Register(&run.Prop{
 		ID: "C11", Level: "fault_enumeration",
 		Rule: func(tier string) string {
-			return "case = one pipeline of 1..5 valid requests (request 0 rotates over every grammar entry) and EVERY byte offset of its encoding as the point where the stream ends, x {half-close (reads return EOF, writes succeed), reset} x {prefix delivered whole, 1-byte chunks}; complete per pipeline. Oracle (differential against the uncut run of the same pipeline): recorded handler calls are exactly the calls of the requests whose last byte was delivered (per-request multiset, in request order), the bytes written are exactly those requests' replies, the connection loop returned, the connection was closed and Server.Conns() is empty. distinct_nontrivial = distinct (pipeline, offset, ending, delivery) with the cut strictly inside a request; counters cut:* classify where the cut fell"
+			return "case = one pipeline of 1..5 valid requests (request 0 rotates over every grammar entry) and EVERY byte offset of its encoding as the point where the stream ends, x {half-close (reads return EOF, writes succeed), reset, full close (reads return EOF and the reply writes fail from the first or second on; only where >= 2 requests are complete)} x {prefix delivered whole, 1-byte chunks}; complete per pipeline. Oracle (differential against the uncut run of the same pipeline): recorded handler calls are exactly the calls of the requests whose last byte was delivered (per-request multiset, in request order), the bytes written are exactly those requests' replies, the connection loop returned, the connection was closed and Server.Conns() is empty. distinct_nontrivial = distinct (pipeline, offset, ending, delivery) with the cut strictly inside a request; counters cut:* classify where the cut fell"
 		},
 		Exhaustive:  func(string) bool { return false },
 		Assumptions: []string{"the scripted connection delivers all bytes before the cut even when the ending is a reset (a real RST may discard unread data; then fewer requests are complete)"},
